@@ -119,7 +119,7 @@ def run(ctx):
             continue
         pts, vt = gen.magnitude(rng, pts, 0.3)
         fam += vt
-        tx, ty = rng.choice([0.05, 0.1, 0.125, 0.02, 0.25]), rng.choice([0.05, 0.1, 0.01, 0.2, 0.0625])
+        tx, ty = rng.choice([0.05, 0.1, 0.125, 0.02, 0.25, 0.5, 0.3, 0.005, 0.75]), rng.choice([0.05, 0.1, 0.01, 0.2, 0.0625, 0.5, 0.001])
         extremes = rng.random() < 0.5
         if rng.random() < 0.5:
             if rng.random() < 0.3:
@@ -130,10 +130,12 @@ def run(ctx):
             else:
                 reduced = gen.random_subset_with_ends(rng, n, rng.randrange(0, min(n - 2, 10) + 1))
             m = len(reduced)
-            knees = sorted(rng.sample(range(m), rng.randrange(1, min(m, 6) + 1)))
+            knees = sorted(rng.sample(range(m), rng.randrange(0 if rng.random() < 0.1 else 1, min(m, 6) + 1)))      # every knee set: the empty one too
             one(ctx, 'add_points_even', pts, reduced, knees, tx, ty, extremes, fam)
         else:
-            knees = sorted(rng.sample(range(1, n - 1), rng.randrange(1, min(n - 2, 6) + 1)))
+            # markers variant: knees anywhere on the curve, both ends included (zero-length end gaps), and the empty marker list (one gap 0..n-1)
+            lo, hi = (0, n) if rng.random() < 0.3 else (1, n - 1)
+            knees = sorted(rng.sample(range(lo, hi), rng.randrange(0 if rng.random() < 0.1 else 1, min(hi - lo, 6) + 1)))
             one(ctx, 'add_points_even_knees', pts, list(range(n)), knees, tx, ty, extremes, fam)
 
 
